@@ -640,6 +640,41 @@ func gen(r0 *Rng, tier string, emit func(c Sx)) {
 			}
 		}()
 	}
+	// list-element spellings that must be rejected: an RLP string wrapping a legacy tx list, a
+	// nested element (string of a string element), the empty string, single bytes
+	wrap := func(b []byte) []byte { e, _ := rlp.EncodeToBytes(b); return e }
+	for _, b := range [][]byte{{0x80}, {0x81, 0x80}, {0x81, 0xc0}, {0x81, 0xff}, {0x00}, {0x7f}, {0x82, 0xc1, 0x80}, {0x82, 0x80, 0x80},
+		{0x83, 0xc2, 0x80, 0x80}, {0x8a, 0xc9, 0x80, 0x80, 0x80, 0x80, 0x80, 0x80, 0x80, 0x80, 0x80}} {
+		raw(b)
+	}
+	for i := 0; i < nTx/5; i++ {
+		ty, fields, sc := genTx(r, tier, false)
+		func() {
+			defer func() { recover() }()
+			bin, err := buildTx(ty, fields, sc).MarshalBinary()
+			if err != nil {
+				return
+			}
+			var e []byte
+			switch {
+			case ty == 0 && r.Chance(3, 4):
+				e = wrap(bin) // string around the legacy list
+			case ty == 0:
+				e = wrap(append([]byte{byte(r.Intn(5))}, bin...)) // type byte in front of a legacy list
+			case r.Chance(1, 2):
+				e = wrap(elemOf(bin)) // nested element
+			default:
+				e = wrap(wrap(append([]byte{0xc0 + byte(r.Intn(8))}, bin[1:]...))) // garbage with a list-like first byte
+			}
+			switch r.Intn(4) {
+			case 0:
+				e = append(e, r.Bytes(r.Range(1, 3))...)
+			case 1:
+				raw(e[1:]) // also the unwrapped inside as a binary envelope / element
+			}
+			raw(e)
+		}()
+	}
 	// random bytes
 	for i := 0; i < nTx/4; i++ {
 		b := r.Bytes(r.Range(1, 40))
